@@ -294,20 +294,53 @@ def r8(ctx):
     def is_count(e):
         return e[0] == "call" and X.last_seg(e[1] or "") in COUNT_CALLS
 
+    def is_known(e):
+        return e[0] == "field" and e[2] == "number_of_ext_fields"
+
     n = 0
     for body in [b] + P.closures_of(b):
         O = X.Origins(body, P)
+        by_loc = {c.loc(): c for c in body.calls()}
+        counts = [c for c in body.calls() if c.name in COUNT_CALLS]
         for cs in body.calls():
             if cs.name not in ("set_pos", "min"):
                 continue
-            for a in O.call_args(cs)[1 if cs.name == "set_pos" else 0:]:
+            allargs = O.call_args(cs)
+            for a in allargs[1 if cs.name == "set_pos" else 0:]:
                 if not mentions_call(a, COUNT_CALLS):
+                    # the other operand of the clamp: the number of additions this version knows, as it is
+                    if cs.name == "min" and any(mentions_call(x, COUNT_CALLS) for x in allargs) and any(is_known(e) for e in X.walk(a)):
+                        out2 = []
+                        count_biases(P, body, a, is_known, out2)
+                        n += 1
+                        d2 = {"function": body.path, "use": "min", "value": X.render(a)[:200], "offsets": out2}
+                        if out2:
+                            ctx.fail(rule, "read_from_field#min-known-bias", "the number of additions this version knows enters the clamp of the "
+                                                                             "presence range with the constant offsets %s while the transmitted count "
+                                                                             "enters it as n: with fewer additions on the wire than known the range is "
+                                                                             "one bit off" % out2, cs.loc(), d2)
+                        else:
+                            ctx.ok(rule, "read_from_field#min-known-bias", d2)
                     continue
                 out = []
                 count_biases(P, body, a, is_count, out)
                 n += 1
                 key = "read_from_field#%s-bias" % cs.name
                 detail = {"function": body.path, "use": cs.name, "value": X.render(a)[:260], "offsets": out}
+                if cs.name == "set_pos":
+                    # a position taken after k presence bits of the bitmap were already read (`let first = bits.read_bit()?; let
+                    # pos = bits.pos(); .. set_pos(pos + (n - 1))`) is k bits into the bitmap
+                    k = 0
+                    for e in X.walk(a):
+                        if e[0] == "call" and X.last_seg(e[1] or "") == "pos" and len(e) > 4 and e[4] in by_loc:
+                            pc = by_loc[e[4]]
+                            ks = [sum(1 for c2 in body.calls() if c2.name == "read_bit" and c2.bb != cc.bb and body.dominates(cc.bb, c2.bb)
+                                      and (body.dominates(c2.bb, pc.bb) and c2.bb != pc.bb)) for cc in counts if body.dominates(cc.bb, pc.bb)]
+                            k = max([k] + ks)
+                    detail["bits_of_the_bitmap_read_before_the_position"] = k
+                    if k and sum(out) + k == 1:
+                        ctx.ok(rule, key, detail)
+                        continue
                 if out != [1]:
                     ctx.fail(rule, key, "the transmitted addition count is used with the constant offsets %s instead of exactly +1 (the writer "
                                         "sends n - 1): the reader expects a different number of presence bits than were written" % out,
